@@ -5,6 +5,8 @@ open Lean D2V.Drv D2V.Fold
 /-- C25 driver.  `render` lines: SHA-1 of the SVG bytes of every render of one (program, engine, sketch) in the
     run (sequential, concurrent with the other diagrams of the batch, GOMAXPROCS 1/2/16) and of two separate CLI
     processes.  Spec-on-impl: all in-process renders byte-identical; both processes byte-identical.
+    `history` lines: SHA-1 of diagram B rendered after a feature-rich diagram A in one fresh process, and of B
+    rendered alone in a fresh process — they must agree (no state survives a render).
     `race` lines: a data-race report of the -race build. -/
 def handleC25 (j : Json) : Except String Verdict := do
   let k ← getStr j "k"
@@ -23,6 +25,13 @@ def handleC25 (j : Json) : Except String Verdict := do
       if !allSame cs then return .specfalse "nondeterministic-across-processes" ((getStr o "clidiff").toOption.getD "")
       return .ok
     | .error _ => return .ok
+  | "history" =>
+    -- diagram B rendered after diagram A in one fresh process vs B rendered alone in a fresh process
+    let after ← getStr o "after"
+    let fresh ← getStr o "fresh"
+    if !allSame [fresh, after] then
+      return .specfalse s!"history-dependent-{(getStr o "kind").toOption.getD "?"}" ((getStr o "diff").toOption.getD "")
+    return .ok
   | "race" => return .specfalse "data-race" ((getStr o "report").toOption.getD "")
   | _ => return .bad s!"unknown kind {k}"
 
